@@ -338,6 +338,17 @@ func vfC06ReplayAcrossExport(t *testing.T, res *vfResult, idx int) {
 
 		return
 	}
+	if idx%3 == 2 {
+		// chained: the imported connection is exported again before it has received anything itself
+		id += "/chained"
+		if _, _, stage, err := w.export(x, nil); err != nil {
+			res.Count("replay_across_export_export_failed", 1)
+			res.Seen("replay_across_export_failures", "second "+stage+": "+vfErrNorm(err))
+
+			return
+		}
+		res.Count("replay_across_export_chained", 1)
+	}
 	before := len(x.snapshot())
 	for _, e := range delivered {
 		w.n.Deliver(string(x.ep.addr), e.Data, y.ep.addr)
